@@ -66,4 +66,100 @@ def filterDump (vm fm : List Char → Bool) (items : List Item) : List Item :=
     | .assign n _ => !vm n
     | .func n _ => !fm n
 
+/-! ## which names a list of patterns selects
+
+A *simple pattern* is a sequence of elements "these characters, this many times" — what the callers pass: plain names
+(`CFLAGS`, `pkg_setup`), names with escaped punctuation (`a\.b`) and prefixes such as `SANDBOX_.*`.  A name matches a
+simple pattern when it **as a whole** splits into consecutive runs, one per element.  A token is an alternation
+`p₁|p₂|…` of simple patterns; a name is selected by a list of tokens when some token matches the whole name — or, in
+whitelist (inverted) mode, when none does. -/
+
+inductive Rep | one | star | plus | opt
+  deriving DecidableEq, Repr
+
+def Rep.allows : Rep → Nat → Bool
+  | .one, n => n == 1
+  | .star, _ => true
+  | .plus, n => decide (1 ≤ n)
+  | .opt, n => decide (n ≤ 1)
+
+abbrev Simple := List (Cs × Rep)
+
+/-- the whole of `s` is: a run of `r`-many characters accepted by `cs`, then the rest of the pattern -/
+def matchSimple : Simple → List Char → Bool
+  | [], s => s.isEmpty
+  | (cs, r) :: p, s =>
+    (List.range (s.length + 1)).any fun n => r.allows n && (s.take n).all cs.accepts && matchSimple p (s.drop n)
+
+abbrev Token := List Simple
+
+def matchToken (t : Token) (name : List Char) : Bool := t.any (matchSimple · name)
+
+/-- the names removed: those some token matches (blacklist), or those no token matches (whitelist) -/
+def selects (toks : List Token) (whitelist : Bool) (name : List Char) : Bool :=
+  whitelist != toks.any (matchToken · name)
+
+def renderCs : Cs → List Char
+  | .lit c => if isSpecial c then ['\\', c] else [c]
+  | .any => ['.']
+
+def renderRep : Rep → List Char
+  | .one => []
+  | .star => ['*']
+  | .plus => ['+']
+  | .opt => ['?']
+
+/-- a simple pattern as the text of a regular expression -/
+def renderSimple (p : Simple) : List Char := p.flatMap fun it => renderCs it.1 ++ renderRep it.2
+
+/-- `'|'.join(...)` of the rendered alternatives -/
+def renderToken (t : Token) : List Char := joinBar (t.map renderSimple)
+
+/-- a plain name as a pattern: every character stands for itself -/
+def literal (name : List Char) : Simple := name.map fun c => (.lit c, .one)
+
+/-- the spec's own reading of a token's text (used by the driver on the tokens of a run) -/
+def readSimple : Nat → List Char → Option Simple
+  | 0, _ => none
+  | _, [] => some []
+  | n + 1, c :: s =>
+    let atom : Option (Cs × List Char) :=
+      if c = '\\' then
+        match s with
+        | d :: s' => if isAlnum d then none else some (.lit d, s')
+        | [] => none
+      else if c = '.' then some (.any, s)
+      else if isSpecial c then none
+      else some (.lit c, s)
+    match atom with
+    | none => none
+    | some (cs, s) =>
+      let rs : Rep × List Char :=
+        match s with
+        | '*' :: s' => (.star, s')
+        | '+' :: s' => (.plus, s')
+        | '?' :: s' => (.opt, s')
+        | _ => (.one, s)
+      (readSimple n rs.2).map fun p => (cs, rs.1) :: p
+
+/-- split at every `|` that is not escaped -/
+def splitBar : List Char → List (List Char)
+  | [] => [[]]
+  | '\\' :: d :: s =>
+    match splitBar s with
+    | h :: t => ('\\' :: d :: h) :: t
+    | [] => [['\\', d]]
+  | '|' :: s => [] :: splitBar s
+  | c :: s =>
+    match splitBar s with
+    | h :: t => (c :: h) :: t
+    | [] => [[c]]
+
+def readToken (t : List Char) : Option Token := (splitBar t).mapM (readSimple (t.length + 1))
+
+/-- `selects` on token texts (empty tokens are not patterns); `none`: a token is outside the pattern language -/
+def selectsText (toks : List (List Char)) (whitelist : Bool) (name : List Char) : Option Bool := do
+  let ts ← (toks.filter (· ≠ [])).mapM readToken
+  pure (selects ts whitelist name)
+
 end Pkgcore.C34.Spec
